@@ -9,7 +9,7 @@ def check(ctx):
     ctx.explanation = (
         "The C13 rules R1-R3 applied to the five adapter methods of fastrace-futures (config E) with the finishing "
         "table poll_next: Ready(None) only; poll_close: Ready(_); poll_ready/start_send/poll_flush: never; R4 drop order of the adapter's fields; R5 Span::set_local_parent opens a "
-        "scope on every path (C13-R5); R6 a scope records iff any item of its token is sampled (C13-R7).")
+        "scope on every path (C13-R5); R6 a scope records iff any item of its token is sampled (C13-R7). R7 a span set that arrives after one of its traces was released is kept for the stale path on every routing branch (C13-R9).")
     ctx.explanation += (" R8 the delivery bundle: queues drained to their end with the registry filtered in place, closed = closed and empty, "
                         "stale sets kept unless cancelable, shared sets fanned out to every parent, one sampling filter at the choke point, a scope "
                         "records iff any parent is sampled, setting a local parent opens a scope, no-op only without a recording parent.")
